@@ -120,27 +120,54 @@ def run(ck: Checker):
     # ------------------------------------------------------------------ C18-2
     enc, dec = mod.func('encode'), mod.func('decode')
 
+    def canon(d):
+        head, _, rest = (d or '').partition('.')
+        full = mod.imports.get(head)
+        return (full + ('.' + rest if rest else '')) if full else (d or '')
+
+    UTF8 = {'utf8', 'utf-8', 'utf_8', 'utf', 'u8'}
+
+    def codec(e, data):
+        """(family, direction) of a return expression over the payload parameter"""
+        if is_name(e, data):
+            return ('raw', '=')
+        if isinstance(e, ast.Call) and e.args and is_name(e.args[0], data) and not e.keywords:
+            d = canon(dotted(e.func))
+            for fam in ('pickle', 'json', 'orjson', 'marshal'):
+                if d == f'{fam}.dumps':
+                    return (fam, 'enc')
+                if d == f'{fam}.loads':
+                    return (fam, 'dec')
+        if isinstance(e, ast.Call) and isinstance(e.func, ast.Attribute) and is_name(e.func.value, data) and e.func.attr in ('encode', 'decode') and len(e.args) <= 1 and not e.keywords:
+            name = e.args[0].value.lower() if e.args and isinstance(e.args[0], ast.Constant) and isinstance(e.args[0].value, str) else ('utf8' if not e.args else None)
+            if name is not None:
+                return ('text:' + ('utf8' if name in UTF8 else name), 'enc' if e.func.attr == 'encode' else 'dec')
+        return ('?' + norm_text(e), '?')
+
     def table(f):
         out = {}
+        ps = f.params()
+        data, sel = (ps[0], ps[1]) if len(ps) >= 2 else ('data', 'encoder')
         for n in walk_shallow_func(f.node):
-            if isinstance(n, ast.If) and isinstance(n.test, ast.Compare) and is_name(n.test.left, 'encoder') and isinstance(n.test.ops[0], ast.Eq) and isinstance(n.test.comparators[0], ast.Constant):
+            if isinstance(n, ast.If) and isinstance(n.test, ast.Compare) and is_name(n.test.left, sel) and isinstance(n.test.ops[0], ast.Eq) and isinstance(n.test.comparators[0], ast.Constant):
                 rets = [b for b in n.body if isinstance(b, ast.Return)]
                 if rets:
-                    out[n.test.comparators[0].value] = norm_text(rets[0].value)
+                    out[n.test.comparators[0].value] = (codec(rets[0].value, data), norm_text(rets[0].value))
         # fall-through return
         last = [n for n in f.node.body if isinstance(n, ast.Return)]
         if last:
-            out['<else>'] = norm_text(last[-1].value)
+            out['<else>'] = (codec(last[-1].value, data), norm_text(last[-1].value))
         return out
 
     te, td = table(enc), table(dec)
-    inverse = {('pickle_dumps(data)', 'pickle_loads(data)'), ('pickle.dumps(data)', 'pickle.loads(data)'), ("data.encode('utf8')", "data.decode('utf8')"), ("data.encode('utf8')", "data.decode('utf')"), ("data.encode('utf-8')", "data.decode('utf-8')"), ('data', 'data')}
     probs = []
     if set(te) != set(td):
         probs.append(f'encode handles {sorted(te)} but decode handles {sorted(td)}')
     for k in te:
-        if k in td and (te[k], td[k]) not in inverse:
-            probs.append(f'for encoder {k!r}: `{te[k]}` is not undone by `{td[k]}`')
+        if k in td:
+            (fe, de), (fd, dd) = te[k][0], td[k][0]
+            if not (fe == fd and (de, dd) in (('enc', 'dec'), ('=', '='))):
+                probs.append(f'for encoder {k!r}: `{te[k][1]}` is not undone by `{td[k][1]}`')
     ck.ob('C18-2', enc, (enc.node.lineno, 'encode/decode'), not probs, '; '.join(probs) if probs else f'encoders {sorted(k for k in te if k != "<else>")} + raw bytes, each decoded by the inverse operation')
     # ------------------------------------------------------------------ C18-3 server side
     for qual, what in (('SocketServer._handle_connection._keep_receiving', 'request → task'), ('SocketServer._handle_connection._keep_responding', 'task → response')):
